@@ -80,6 +80,17 @@ func streamAddr(c *ctx) {
 			ip := ips[p%len(ips)]
 			emitParse(role, fmt.Sprintf("%d.%d.%d.%d:%d", ip[0], ip[1], ip[2], ip[3], p), "parse/canonical-addr-port")
 		}
+		// format then parse for the special addresses (0.0.0.0, 255.255.255.255 ...) under boundary ports
+		for _, ip := range ips {
+			for _, p := range []int{0, 1, 59999, 60000, 60001, 65535} {
+				if !strings.HasPrefix(parseAddrAs(role, fmt.Sprintf("%d.%d.%d.%d:%d", ip[0], ip[1], ip[2], ip[3], p)), "ok ") {
+					continue
+				}
+				txt := formatAddrAs(role, netip.AddrFrom4(ip), uint16(p))
+				w.Emit(fmt.Sprintf("addr-format %s %d %d %d %d %d", role, ip[0], ip[1], ip[2], ip[3], p), "text "+cases.Hex([]byte(txt)), "format", "addr/"+role)
+				emitParse(role, txt, "parse/of-formatted")
+			}
+		}
 		for i := 0; i < 300*c.scale; i++ {
 			b := r.Bytes(4)
 			if r.Chance(1, 3) {
